@@ -351,6 +351,111 @@ int main(int argc, char** argv) {
   };
   static const char* rn[6] = {"parsed", "api-reversed", "deep-copy(freeing alloc)", "api+maps+capacity+stale", "reparsed-dump(freeing alloc)", "member-removed-under-map"};
 
+  // E3: wide containers (any per-size threshold in lookup or comparison lies between 15 and 24 members)
+  static std::vector<ref::Value> WV;
+  struct RealW {
+    std::unique_ptr<PoolDoc> parsed, mapped, api_rev;
+    std::unique_ptr<SimpleDoc> copied;
+  };
+  static std::vector<RealW> WZ;
+  if (WV.empty()) {
+    auto obj = [](unsigned n, int variant, unsigned p) {
+      ref::Value o = ref::Value::mk(ref::Obj);
+      for (unsigned i = 0; i < n; i++) o.o.emplace_back("k" + std::to_string(i), ref::Value::mkU(i));
+      switch (variant) {
+        case 0: break;
+        case 1: std::reverse(o.o.begin(), o.o.end()); break;
+        case 2: std::rotate(o.o.begin(), o.o.begin() + 7, o.o.end()); break;
+        case 3: o.o[p].second = ref::Value::mkU(1000 + p); break;
+        case 4: o.o[p].first = "x" + std::to_string(p); break;
+        case 5: o.o.pop_back(); break;
+        case 6: o.o.emplace_back("extra", ref::Value::mk(ref::Null)); break;
+        case 7: o.o[p].second = ref::Value::mkD((double)p); break;  // same number, other kind
+        case 8: o.o[p].second = ref::parse(std::string("{\"a\":1,\"b\":[1]}")).v; break;
+        case 9: o.o[p].second = ref::parse(std::string("{\"b\":[1],\"a\":1}")).v; break;
+      }
+      return o;
+    };
+    // wide objects nested in wide objects (a comparison of the outer one re-enters the comparison of objects)
+    for (unsigned n : {32u, 33u})
+      for (unsigned n2 : {31u, 32u, 40u})
+        for (unsigned p : {0u, n / 2, n - 1})
+          for (int iv : {0, 1, 3}) {
+            ref::Value o = obj(n, 0, 0);
+            o.o[p].second = obj(n2, iv, n2 / 2);
+            WV.push_back(o);
+            if (iv == 1) {
+              std::reverse(o.o.begin(), o.o.end());
+              WV.push_back(o);
+            }
+          }
+    for (unsigned n : {15u, 16u, 17u, 24u, 31u, 32u, 33u, 40u}) {
+      for (int var : {0, 1, 2, 5, 6}) WV.push_back(obj(n, var, 0));
+      for (int var : {3, 4, 7, 8, 9})
+        for (unsigned p : {0u, n / 2, n - 1}) WV.push_back(obj(n, var, p));
+      for (int av = 0; av < 4; av++) {
+        ref::Value a = ref::Value::mk(ref::Arr);
+        for (unsigned i = 0; i < n; i++) a.a.push_back(ref::Value::mkU(i));
+        if (av == 1) std::swap(a.a[0], a.a[n - 1]);
+        if (av == 2) a.a[n / 2] = ref::Value::mkD((double)(n / 2));
+        if (av == 3) a.a.pop_back();
+        WV.push_back(a);
+      }
+    }
+    WZ.resize(WV.size());
+    for (size_t i = 0; i < WV.size(); i++) {
+      std::string text = ref::write_json(WV[i]);
+      WZ[i].parsed.reset(new PoolDoc());
+      WZ[i].parsed->Parse(text);
+      WZ[i].mapped.reset(new PoolDoc());
+      WZ[i].mapped->Parse(text);
+      if (WZ[i].mapped->IsObject()) {
+        WZ[i].mapped->CreateMap(WZ[i].mapped->GetAllocator());
+        for (auto it = WZ[i].mapped->MemberBegin(); it != WZ[i].mapped->MemberEnd(); ++it)
+          if (it->value.IsObject()) it->value.CreateMap(WZ[i].mapped->GetAllocator());
+      }
+      WZ[i].copied.reset(new SimpleDoc());
+      WZ[i].copied->CopyFrom(*WZ[i].parsed, WZ[i].copied->GetAllocator(), true);
+      // API build in reverse order (objects only: array order is significant), owned keys
+      WZ[i].api_rev.reset(new PoolDoc());
+      auto& al = WZ[i].api_rev->GetAllocator();
+      if (WV[i].k == ref::Obj) {
+        WZ[i].api_rev->SetObject();
+        for (size_t m = WV[i].o.size(); m-- > 0;) {
+          PoolDoc::NodeType c;
+          c.CopyFrom(WZ[i].parsed->FindMember(WV[i].o[m].first)->value, al, true);
+          WZ[i].api_rev->AddMember(WV[i].o[m].first, std::move(c), al, true);
+        }
+      } else
+        WZ[i].api_rev->CopyFrom(*WZ[i].parsed, al, true);
+      for (int r = 0; r < 4; r++) {
+        ref::Value got = r == 0 ? sc::to_ref(*WZ[i].parsed) : r == 1 ? sc::to_ref(*WZ[i].mapped) : r == 2 ? sc::to_ref(*WZ[i].api_rev) : sc::to_ref(*WZ[i].copied);
+        if (!ref::equal(got, WV[i]) && build_error.empty()) build_error = "wide realisation " + std::to_string(r) + " of " + text + " reads back as " + ref::show(got);
+      }
+    }
+  }
+  vr::Family f3;
+  f3.name = "E3_wide_containers";
+  f3.count = (uint64_t)WV.size() * WV.size();
+  f3.group = "E3";
+  f3.chunk = 64;
+  f3.rule = "all ordered pairs over " + std::to_string(WV.size()) + " objects / arrays of 15, 16, 17, 24, 31, 32, 33 and 40 children and 32/33-member objects holding a 31/32/40-member object at the first, middle or last position (base, reversed, rotated, one value / key / kind changed at the first, middle, last position, nested member in two orders, one member fewer / more) x 16 pairs of realisations (parsed / parsed with lookup maps / API-built in reverse order with owned keys / deep copy into a freeing-allocator document)";
+  auto eqw = [&](size_t i, int ri, size_t j, int rj) -> int {
+    auto go = [&](const auto& A) -> int {
+      switch (rj) {
+        case 0: return (int)(A == *WZ[j].parsed) | ((int)(A != *WZ[j].parsed) << 1);
+        case 1: return (int)(A == *WZ[j].mapped) | ((int)(A != *WZ[j].mapped) << 1);
+        case 2: return (int)(A == *WZ[j].api_rev) | ((int)(A != *WZ[j].api_rev) << 1);
+        default: return (int)(A == *WZ[j].copied) | ((int)(A != *WZ[j].copied) << 1);
+      }
+    };
+    switch (ri) {
+      case 0: return go(static_cast<const PoolDoc::NodeType&>(*WZ[i].parsed));
+      case 1: return go(static_cast<const PoolDoc::NodeType&>(*WZ[i].mapped));
+      case 2: return go(static_cast<const PoolDoc::NodeType&>(*WZ[i].api_rev));
+      default: return go(static_cast<const SimpleDoc::NodeType&>(*WZ[i].copied));
+    }
+  };
   vr::CheckFn check = [&](const vr::Family& f, uint64_t idx, vr::Ctx& ctx) {
     if (!build_error.empty()) {
       if (idx == 0) ctx.violation("harness_build", "harness_build", build_error, "harness error: %s", build_error.c_str());
@@ -380,6 +485,23 @@ int main(int argc, char** argv) {
       }
       return;
     }
+    if (f.name[1] == '3') {
+      static const char* wn[4] = {"parsed", "parsed+maps", "api-reversed", "deep-copy(freeing alloc)"};
+      size_t i = idx / WV.size(), j = idx % WV.size();
+      bool want = ref::equal(WV[i], WV[j]);
+      if (WV[i].k == WV[j].k) ctx.nontriv();
+      std::string desc = ref::show(WV[i]).substr(0, 300) + "  vs  " + ref::show(WV[j]).substr(0, 300);
+      if (ctx.want_sample) ctx.sample(desc.substr(0, 200));
+      for (int ri = 0; ri < 4; ri++)
+        for (int rj = 0; rj < 4; rj++) {
+          ctx.eval();
+          int r = eqw(i, ri, j, rj);
+          bool e = r & 1, ne = (r >> 1) & 1;
+          if (e != want) ctx.violation("eq_vs_model", want ? "eq_false_negative_wide" : "eq_false_positive_wide", desc, "[%s] == [%s] is %d but the values are %s", wn[ri], wn[rj], (int)e, want ? "equal" : "different");
+          if (ne == e) ctx.violation("ne_not_negation", "eq_ne_not_negation", desc, "operator!= is not the negation of operator== for [%s] vs [%s]", wn[ri], wn[rj]);
+        }
+      return;
+    }
     size_t a = tsub[idx / (NT * NT)], b = tsub[(idx / NT) % NT], c = tsub[idx % NT];
     int ra = (int)(idx % 6), rb = (int)((idx / 6) % 6), rc = (int)((idx / 36) % 6);
     ctx.eval();
@@ -387,7 +509,7 @@ int main(int argc, char** argv) {
     if (ab && bc) ctx.nontriv();
     if (ab && bc && !ac) ctx.violation("eq_intransitive", "eq_intransitive", ref::show(V[a]), "a==b and b==c but not a==c: %s / %s / %s", ref::show(V[a]).c_str(), ref::show(V[b]).c_str(), ref::show(V[c]).c_str());
   };
-  std::vector<vr::Family> fams = {f1, f2};
+  std::vector<vr::Family> fams = {f1, f2, f3};
   if (args.replay) return R.replay_one(fams, check);
   for (auto& f : fams) R.run(f, check);
   return R.finish();
